@@ -107,4 +107,55 @@ def rmCase (lower : Bool) (fo : List (Fl × Fl)) (W : List (Fl × List Fl)) : Fl
   | some a, some b => Fl.fin (rmScore lower a b)
   | _, _ => Fl.nan
 
+/-! ### documented parameter domains (the `Args:` / `Raises:` sections of `firm` and `risk_matrix_score`)
+
+The penalties (1 − α) / α are a fixed-risk measure only for 0 < α < 1 (both boundaries excluded); weights are positive;
+probability thresholds lie strictly inside (0, 1).  `true` = the call is inside the documented domain (must not raise);
+`false` = ValueError is documented. -/
+
+/-- 0 < α < 1 -/
+def alphaOk : Fl → Bool
+  | Fl.fin q => decide (0 < q) && decide (q < 1)
+  | _ => false
+
+/-- a threshold weight (scalar, or one entry of an array): > 0; NaN entries are allowed -/
+def weightOk : Fl → Bool
+  | Fl.fin q => decide (0 < q)
+  | Fl.pinf => true
+  | Fl.nan => true
+  | Fl.ninf => false
+
+/-- `discount_distance` ≥ 0 (0 = no discount, +∞ allowed) -/
+def discOk : Fl → Bool
+  | Fl.fin q => decide (0 ≤ q)
+  | Fl.pinf => true
+  | _ => false
+
+def modeOk (mode : String) : Bool := mode == "upper" || mode == "lower"
+
+/-- `weights` = every value of every threshold weight (scalars and array entries) -/
+def firmDomain (nThresholds nWeights : Nat) (alpha : Fl) (weights : List Fl) (d : Fl) (mode : String) : Bool :=
+  decide (1 ≤ nThresholds) && decide (nThresholds = nWeights) && alphaOk alpha && weights.all weightOk && discOk d &&
+  modeOk mode
+
+/-- a forecast probability: in the closed interval [0, 1], or missing -/
+def probOk : Fl → Bool
+  | Fl.fin q => decide (0 ≤ q) && decide (q ≤ 1)
+  | Fl.nan => true
+  | _ => false
+
+/-- a binary observation: 0, 1 or missing -/
+def binaryOk : Fl → Bool
+  | Fl.fin q => decide (q = 0) || decide (q = 1)
+  | Fl.nan => true
+  | _ => false
+
+/-- a probability threshold: strictly between 0 and 1 -/
+def probThresholdOk : Fl → Bool
+  | Fl.fin q => decide (0 < q) && decide (q < 1)
+  | _ => false
+
+def rmDomain (fcsts obs probs : List Fl) (mode : String) : Bool :=
+  fcsts.all probOk && obs.all binaryOk && probs.all probThresholdOk && modeOk mode
+
 end SV.Spec.Firm
